@@ -31,7 +31,7 @@ Fixpoint comparable (t : ty) : bool :=
   | TPair a b => comparable a && comparable b
   | TOption a => comparable a
   | TOr a b => comparable a && comparable b
-  | TList _ | TSet _ | TMap _ _ | TOperation | TAddress | TChainId => false   (* address/chain_id are comparable in Michelson; their order is property C03's subject and outside this fragment *)
+  | TList _ | TSet _ | TMap _ _ | TLambda _ _ | TOperation | TAddress | TChainId => false   (* address/chain_id are comparable in Michelson; their order is property C03's subject and outside this fragment *)
   end.
 
 (* both branches of a conditional must agree unless one of them fails *)
@@ -84,9 +84,28 @@ Fixpoint has_coll (t : ty) : bool :=
   | _ => false
   end.
 
+(* types whose values have a literal in the fragment (what APPLY may capture) *)
+Fixpoint has_literal (t : ty) : bool :=
+  match t with
+  | TAddress | TChainId | TOperation | TLambda _ _ => false
+  | TPair a b | TOr a b | TMap a b => has_literal a && has_literal b
+  | TOption a | TList a | TSet a => has_literal a
+  | _ => true
+  end.
+
 (* instructions without sub-programs. [strict = true]: the proved fragment (no set/map instruction) *)
 Definition tc_simple (strict : bool) (i : instr) (s : sty) : option sty :=
   match i with
+  | I_EXEC => if strict then None else
+              match s with
+              | a :: TLambda a' b :: r => if ty_eqb a a' then Some (b :: r) else None
+              | _ => None
+              end
+  | I_APPLY => if strict then None else
+               match s with
+               | a :: TLambda (TPair a' b) c :: r => if ty_eqb a a' && has_literal a then Some (TLambda b c :: r) else None
+               | _ => None
+               end
   | I_EMPTY_SET k => if negb strict && comparable k then Some (TSet k :: s) else None
   | I_EMPTY_MAP k v => if negb strict && comparable k then Some (TMap k v :: s) else None
   | I_MEM => if strict then None else
@@ -203,6 +222,13 @@ Fixpoint typecheck_gen (strict : bool) (i : instr) (s : sty) {struct i} : option
       | None => None
       end
   | I_FAILWITH => match s with _ :: _ => Some Failing | [] => None end
+  | I_LAMBDA a b body =>
+      if strict then None else
+      match typecheck_gen strict body [a] with
+      | Some (Typed [b']) => if ty_eqb b b' then Some (Typed (TLambda a b :: s)) else None
+      | Some Failing => Some (Typed (TLambda a b :: s))
+      | _ => None
+      end
   | I_DIP n c =>
       if n <=? length s then
         match typecheck_gen strict c (skipn n s) with
